@@ -36,6 +36,12 @@ struct OpEnumerator
         out.push_back(s);
     }
 
+    void add2(const Req& base, int target, int sub, int member, u64 extent, const std::string& label, u64 arg, u64 arg2, std::vector<int> cpath)
+    {
+        add(base, target, sub, member, extent, label, arg, cpath);
+        out.back().rq.arg2 = arg2;
+    }
+
     void leaf_ops(const Req& base, const MemberShape& m, int field, std::vector<int> cpath, u64 abs, u64 ext, const std::string& lbl, const std::vector<u8>& bytes)
     {
         // abs = absolute offset of the member; ext = conservative extent of any access to it
@@ -67,6 +73,18 @@ struct OpEnumerator
             add(base, T_FIELD, A_STRLEN_R, field, ext, lbl + ".strlen_r", 0, cpath);
             add(base, T_FIELD, A_FILL, field, ext, lbl + ".fill", 0x41, cpath);
             add(base, T_FIELD, A_ASSIGN_STRING, field, ext, lbl + ".assign_string", std::min<u64>(m.count, 3), cpath);
+            // the eos modes and the other assign overloads (documented preconditions hold: lengths <= N)
+            for(u64 mode = 0; mode < 3; mode++)
+            {
+                static const char* mn[] = {"eos_null::all", "eos_null::single", "eos_null::none"};
+                add2(base, T_FIELD, A_ASSIGN_STRING_MODE, field, ext, lbl + ".assign_string(cstr, " + mn[mode] + ") shorter", m.count ? m.count - 1 : 0, mode, cpath);
+                add2(base, T_FIELD, A_ASSIGN_STRING_MODE, field, ext, lbl + ".assign_string(cstr, " + mn[mode] + ") full", m.count, mode, cpath);
+                add2(base, T_FIELD, A_ASSIGN_STRING_RANGE, field, ext, lbl + ".assign_string(range, " + mn[mode] + ")", m.count / 2, mode, cpath);
+            }
+            add(base, T_FIELD, A_ASSIGN_ITER, field, ext, lbl + ".assign(first, last) full", m.count, cpath);
+            add(base, T_FIELD, A_ASSIGN_ITER, field, ext, lbl + ".assign(first, last) empty", 0, cpath);
+            add(base, T_FIELD, A_ASSIGN_IL, field, ext, lbl + ".assign({a, b})", 0, cpath);
+            add(base, T_FIELD, A_PARTIAL_FILL, field, ext, lbl + ".assign(N-1, v)", m.count ? m.count - 1 : 0, cpath);
             if(m.count)
             {
                 add(base, T_FIELD, A_INDEX, field, ext, lbl + "[0]", 0, cpath);
